@@ -264,6 +264,18 @@ pub fn default_block(fd: i32, has_timeout: bool) -> BlockAction {
     BlockAction::Retry
 }
 
+/// Add a marker entry `(calling thread, code)` to the execution log (a managed thread holding the
+/// baton; used by C11 for 996 = "the finite timeout of this thread's blocked wait expired because
+/// nobody is left who could run": `default_block` answered `BlockAction::Etime`).
+pub fn push_marker(code: u32) {
+    if let Some(me) = TID.with(Cell::get) {
+        let mut st = lock();
+        if st.active {
+            st.exec.push((me, code));
+        }
+    }
+}
+
 /// Number of entries in the execution log so far (a managed thread holding the baton can bracket
 /// a call with it to find the segments the call was made of).
 pub fn exec_len() -> usize {
